@@ -135,6 +135,16 @@ CLAIMED = {
          'match the .pyx; mahalanobis with NaN channels is not generated (undefined behaviour); known findings F24, F25 are reported '
          'as KNOWN-FINDING lines.',
          'DESIGN.md section 7, C15'),
+ 'C20': ('Coq proofs over strings (BIDS parse/format round trip for all entity combinations and values, look-up entity laws, Meadows '
+         'file-name shapes) and over R (design-column normalisation, SPM projection) + in-Coq correspondence of the importers',
+         'Theorems (string ones axiom-free): for EVERY valid record of derivative/sub/ses/modality/task/run/space/desc/suffix/ext, '
+         'deconstruct(format r) = r and format(deconstruct(format r)) = format r; events / metadata / sibling look-ups change exactly '
+         'the entities they name; the three Meadows file-name shapes decode to their fields; a normalised design column has mean 0 '
+         'and range exactly 1; for orthonormal filter regressors q.(y - sum (q_k.y) q_k) = 0. Correspondence: BidsFile/BidsLayout on all 2^6 '
+         'presence patterns, extract_filename_segments, spm_filter per run and column, design-matrix columns validated, inside Coq.',
+         'HRF convolution / pchip values, loadmat/json, pandas and the MNE object are not modelled: Meadows file loading, epochs '
+         'mapping and design-matrix content are checked by the Python oracle; entity values are separator-free as in the BIDS grammar.',
+         'DESIGN.md section 7, C20'),
 }
 NA_REASON = 'check not built yet in this round (work in progress; see DESIGN.md section 7)'
 
